@@ -89,12 +89,15 @@ KEY_STYLE_INDEX = "styles-indexerror-last-rowwise-zero-columns"
 
 # --------------------------------------------------------------------------- generator (spec level)
 
-TEXT_ALPHA = list("abcxyzABZ019 _-.,;:*#%/()é µΩ中") + ["ß", "ø", "'", '"', "&", "<", ">", "\t", "\n"]
-NAME_ALPHA = list("abcdxyT01_- é")
-UNITS_NUM = ["-", "m", "kg", "mm", "°C", "m/s", "1/s", "%", "N m", "Text", "ONOFF", "µm"]
+# astral characters (outside the Basic Multilingual Plane): U+1F600, U+1D538, U+20000
+ASTRAL = ["\U0001F600", "\U0001D538", "\U00020000"]
+TEXT_ALPHA = list("abcxyzABZ019 _-.,;:*#%/()é µΩ中") + ["ß", "ø", "'", '"', "&", "<", ">", "\t", "\n"] + ASTRAL + \
+    ["\x85", "\u2028", "\u2029", "\ufeff"]       # line breaks of str.splitlines() that XML keeps, a BOM inside a value
+NAME_ALPHA = list("abcdxyT01_- é") + ASTRAL
+UNITS_NUM = ["-", "m", "kg", "mm", "°C", "m/s", "1/s", "%", "N m", "Text", "ONOFF", "µm", "\U0001D538m", "\U00020000"]
 SHEET_NAMES = ["Sheet1", "data", "in put", "Tab_2", "résumé", "A", "x1", "sheet one", "Ωmega", "out", "in", "input_2",
-               "123", "a.b", "tab-3"]
-TEXT_FIXED = ["ratio a:b", "12:30", "C:\\data", "x: y", "a:b:c", "t 1:2 ", "a\nb", "a\tb", " lead\n", "x\n\ny", "-", "nan", "None", "1.5", "12", "k:", "**x", ":a", " u ", "x" * 40, "TRUE", "2020-01-02", "a=b", "é µ",
+               "123", "a.b", "tab-3", "S\U0001F600\U0001D538"]
+TEXT_FIXED = ["ratio a:b", "12:30", "C:\\data", "x: y", "a:b:c", "t 1:2 ", "a\nb", "a\tb", " lead\n", "x\n\ny", "-", "nan", "None", "1.5", "12", "k:", "**x", ":a", " u ", "x" * 40, "TRUE", "2020-01-02", "a=b", "é µ", "\U0001F600", "x\U00020000y\U0001D538", "\ufeffbom", "a\x85b", "a\u2028b",
               "#N/A", "  lead", "trail  ", "0", "*", "a:b"]
 FLOATS_FIXED = [0.0, -0.0, 1.0, 2.0, -3.0, 2.5, 0.1, 1e20, 1e15, 1e16, -1e-7, 123456.789, 3.14159265358979,
                 1e-300, 1e300, 999999999999999.0, 0.001, 100.0, float("nan")]
@@ -131,7 +134,7 @@ def text_ok(s):
 
 def char_ok(c):
     """what openpyxl gives back unchanged: U+0020 and above, tab, line feed (a carriage return comes back as \\n)"""
-    return (ord(c) >= 32 or c in "\t\n") and ord(c) not in (0xFFFE, 0xFFFF)
+    return (ord(c) >= 32 or c in "\t\n") and ord(c) not in (0xFFFE, 0xFFFF) and not 0xD800 <= ord(c) <= 0xDFFF
 
 
 def sheet_key(n):
@@ -140,6 +143,8 @@ def sheet_key(n):
 
 def sheet_names_ok(names):
     """legal for openpyxl and distinct ignoring case (non-ASCII characters all identified: conservative)"""
+    if not names:
+        return False                  # a workbook without a sheet cannot be saved
     for n in names:
         if not n or len(n) > 31 or any(ord(c) < 32 or ord(c) in (0xFFFE, 0xFFFF) or c in "\\/?*[]:" for c in n):
             return False
@@ -189,6 +194,12 @@ def rand_float(rng):
 def rand_dt(rng):
     if rng.random() < 0.2:
         return None
+    if rng.random() < 0.12:
+        # far years: pandas 3 keeps them at [s]/[ms]/[us]; Excel starts at 1900
+        from harness.write_common import YEAR_EDGES
+        year = rng.choice([y for y in YEAR_EDGES if y >= 1900])
+        return datetime.datetime(year, rng.randint(1, 12), rng.randint(1, 28), rng.randint(0, 23), rng.randint(0, 59),
+                                 rng.randint(0, 59)).isoformat()
     if rng.random() < 0.15:
         return rng.choice(["1900-01-01T00:00:00", "1900-01-01T00:00:01", "1900-02-28T23:59:59", "1900-01-31T13:14:15",
                            "1900-03-01T00:00:00", "1900-03-01T00:00:01", "1999-12-31T23:59:59", "2000-02-29T12:00:00",
@@ -217,7 +228,7 @@ def gen_table(rng, k):
         name = "t%d" % k
     dests = set()
     for _ in range(rng.choice([1, 1, 1, 2, 3])):
-        d = rng.choice(["all", "a", "b", "your_farm", "x-1", "é", "D", "me,you", "42"])
+        d = rng.choice(["all", "a", "b", "your_farm", "x-1", "é", "D", "me,you", "42", "d\U0001F600", "\U00020000\U0001D538"])
         dests.add(d)
     cols, used = [], set()
     for j in range(n_col):
@@ -239,7 +250,12 @@ def gen_table(rng, k):
             vals = [float_tok(rand_float(rng)) for _ in range(n_row)]
         else:
             vals = [rng.choice(INTS_FIXED) if rng.random() < 0.4 else rng.randint(-10 ** 6, 10 ** 6) for _ in range(n_row)]
-        cols.append({"name": cname, "unit": unit, "kind": kind, "values": vals})
+        col = {"name": cname, "unit": unit, "kind": kind, "values": vals}
+        if kind == "datetime":
+            # resolution of the datetime64 column holding these instants ([ns] only reaches 2262-04-11)
+            fits_ns = all(v is None or v[:4] < "2262" for v in vals)
+            col["res"] = rng.choice(["s", "ms", "us", "us"] + (["ns", "ns"] if fits_ns else []))
+        cols.append(col)
     spec = {"name": name, "destinations": sorted(dests), "transposed": transposed, "columns": cols}
     if n_col >= 2 and rng.random() < 0.3:
         # edit-then-write history: the table is built with its columns in another order, consulted once, and its
@@ -342,7 +358,9 @@ def build_table(spec):
         elif k == "onoff":
             data[c["name"]] = pd.Series(v, dtype=bool)
         elif k == "datetime":
-            data[c["name"]] = pd.Series(pd.to_datetime([None if x is None else x for x in v]), dtype="datetime64[ns]")
+            res = c.get("res") or ("ns" if all(x is None or x[:4] < "2262" for x in v) else "us")
+            data[c["name"]] = pd.Series([pd.NaT if x is None else pd.Timestamp(x) for x in v],
+                                        dtype="datetime64[%s]" % res)
         elif k == "num":
             data[c["name"]] = pd.Series([float(x) for x in v], dtype=np.float64)
         else:
@@ -500,6 +518,7 @@ NEGATIVE_SHEETS = [
     ("illegal character in a sheet name", ["a/b"], "ValueError"),
     ("sheet names equal ignoring case", ["A", "a"], ["A", "a1"]),
     ("empty sheet name", [""], ["Sheet"]),
+    ("no sheet at all", [], "IndexError"),
 ]
 SHEET_NAME_PROBES = [["x" * 31], ["x" * 32], ["é", "ü"], ["Sheet", "SHEET"], ["a:b"], ["a]"], ["ok", "Ok "], ["q?"]]
 
@@ -766,7 +785,18 @@ def run_case(case, out, tmp, model_ok, ops, pend, oracle=True):
 
     # ---- write (the setting under test) and, if styled, the unstyled twin
     try:
-        data, appended = write_wb(arg(), styles, sep, kind, tmp, tag)
+        first_arg = arg()
+        snapshot = [(k, v if not isinstance(v, list) else list(v)) for k, v in first_arg.items()] \
+            if isinstance(first_arg, dict) else None
+        data, appended = write_wb(first_arg, styles, sep, kind, tmp, tag)
+        if snapshot is not None and oracle:
+            now = [(k, v if not isinstance(v, list) else list(v)) for k, v in first_arg.items()]
+            same = len(now) == len(snapshot) and all(
+                k1 == k2 and (v1 is v2 if not isinstance(v1, list) else (len(v1) == len(v2) and all(
+                    a is b for a, b in zip(v1, v2)))) for (k1, v1), (k2, v2) in zip(snapshot, now))
+            if not same:
+                out.fail("write_excel modified the mapping the caller passed", brief, [k for k, _ in now],
+                         [k for k, _ in snapshot], key="caller_mapping_modified")
     except Exception as e:  # noqa: BLE001
         last_zero = any(s["tables"] and not s["tables"][-1]["columns"] and not s["tables"][-1]["transposed"]
                         for s in sheets)
@@ -942,7 +972,7 @@ def run(tier, seed, model_ok, translator, search=False):
                 "non-trivial = at least one table with a column; distinct by sheet map and settings")
     rng = make_rng(seed, "C09")
     thorough = tier == "thorough"
-    n_cases = (2500 if thorough else 150) if not search else 500
+    n_cases = (2000 if thorough else 150) if not search else 500
     tmp = tempfile.mkdtemp(prefix="c09-")
     ops, pend = [], []
     try:
@@ -950,6 +980,13 @@ def run(tier, seed, model_ok, translator, search=False):
         for i, case in enumerate(fixed_cases(seed)):
             out.case(dict(case, sheets="(fixed shape %d)" % i), nontrivial=True)
             run_case(case, out, tmp, model_ok, ops, pend)
+        for case in ladder_cases(seed, thorough) if not search else []:
+            out.evaluations += 1
+            out.nontrivial.add(hash(case["index"]))
+            out.count("size ladder:" + case["index"].split(":")[1])
+            run_case(case, out, tmp, model_ok, ops, pend)
+            shutil.rmtree(tmp, ignore_errors=True)
+            os.makedirs(tmp, exist_ok=True)
         for i in range(n_cases):
             sheets = gen_sheets(rng)
             st = rng.choice(["False", "True", "True", "custom:0", "custom:0", "custom:1", "custom:2", "custom:3"])
@@ -1110,6 +1147,47 @@ def fixed_cases(seed):
             cases.append({"seed": seed, "index": "names:%d:%s" % (i, pat), "styles": "True" if i % 2 else "False",
                           "sheets": [{"name": n, "tables": [r if j % 2 == 0 else t1]} for j, n in enumerate(names)],
                           "sep": 1 + i % 3, "target": "bytes" if i % 2 else "path", "pattern": pat})
+    return cases
+
+
+ROW_LADDER_QUICK = [63, 129, 256, 1025, 4097, 8193]
+ROW_LADDER = [60, 61, 62, 63, 64, 127, 128, 129, 255, 256, 257, 1000, 1023, 1024, 1025, 2047, 2048, 2049, 4095, 4096, 4097,
+              8191, 8192, 8193, 20000]
+COL_LADDER_QUICK = [64, 257]
+COL_LADDER = [63, 64, 65, 127, 128, 129, 255, 256, 257, 1000, 1025]
+
+
+def ladder_cases(seed, thorough):
+    """a size ladder: tables with many rows / many columns, both orientations, followed by a small table in the same
+    sheet (block offsets after a long block), styled and unstyled"""
+    rng = make_rng(seed, "C09-ladder")
+    small = {"name": "after", "destinations": ["all"], "transposed": False, "columns": [
+        {"name": "k", "unit": "text", "kind": "text", "values": ["x", "y"]},
+        {"name": "v", "unit": "m", "kind": "num", "values": ["1.0", "nan"]}]}
+    cases = []
+    for i, n in enumerate(ROW_LADDER if thorough else ROW_LADDER_QUICK):
+        transposed = (i % 3 == 1) and n <= 8193
+        base = datetime.datetime(1999, 12, 31, 23, 0, 0)
+        cols = [{"name": "id", "unit": "text", "kind": "text",
+                 "values": [("r%d" % j) if j % 97 else ("a:b %d \U0001F600" % j) for j in range(n)]},
+                {"name": "x", "unit": "m", "kind": "num",
+                 "values": [float_tok(j * 0.5) if j % 50 else "nan" for j in range(n)]},
+                {"name": "when", "unit": "datetime", "kind": "datetime", "res": "us",
+                 "values": [None if j % 41 == 7 else (base + datetime.timedelta(seconds=3601 * j)).isoformat()
+                            for j in range(n)]}]
+        if i % 2:
+            cols = cols[:2] + [{"name": "n", "unit": "-", "kind": "int", "values": [j - 5 for j in range(n)]}]
+        big = {"name": "rows%d" % n, "destinations": ["all"], "transposed": transposed, "columns": cols}
+        cases.append({"seed": seed, "index": "ladder:rows:%d" % n, "styles": ["True", "False", "custom:0"][i % 3],
+                      "sep": 1 + i % 2, "target": "bytes" if i % 2 else "path", "pattern": None,
+                      "sheets": [{"name": "L", "tables": [big, small], "form": rng.choice(["list", "generator", "tuple"])}]})
+    for i, n in enumerate(COL_LADDER if thorough else COL_LADDER_QUICK):
+        cols = [{"name": "c%d" % j, "unit": "m" if j % 2 else "text", "kind": "num" if j % 2 else "text",
+                 "values": [float_tok(j + 0.25), "nan"] if j % 2 else ["t%d" % j, "u"]} for j in range(n)]
+        wide = {"name": "cols%d" % n, "destinations": ["all"], "transposed": bool(i % 2), "columns": cols}
+        cases.append({"seed": seed, "index": "ladder:cols:%d" % n, "styles": ["custom:0", "True", "False"][i % 3],
+                      "sep": 1, "target": "path" if i % 2 else "bytes", "pattern": None,
+                      "sheets": [{"name": "W", "tables": [wide, small], "form": "list"}]})
     return cases
 
 
